@@ -159,6 +159,7 @@ def main(argv=None):
     os.makedirs(harness.REPLAY_DIR, exist_ok=True)
     n_viol = 0
     known_lines = []
+    seen_paths = set()
     for ob in obs:
         r = results[ob.id]
         for v in r.get('violations', []):
@@ -169,8 +170,11 @@ def main(argv=None):
                     known_lines.append(line)
                 v['known'] = True
                 continue
-            n_viol += 1
             path = os.path.join(harness.REPLAY_DIR, f"{ob.id}.{v['claim'].replace('/', '_')}.json"[:180])
+            if path in seen_paths:
+                continue
+            seen_paths.add(path)
+            n_viol += 1
             with open(path, 'w') as f:
                 json.dump(dict(property=args.prop, obligation=ob.id, claim=v['claim'], env=v.get('env'),
                                uf_tables=v.get('uf_tables'), discrepancy=v.get('discrepancy'),
